@@ -96,6 +96,9 @@ class TokenManager(interfaces.RequestInterface, interfaces.TokenManager):
         stoppers = []
         for key, request in self.outgoing_requests.items():
             (token, request_remote) = key
+            if request_remote is None:
+                # requests to multicast addresses are keyed (token, None)
+                request_remote = request.request.remote
             if request_remote == remote:
                 stoppers.append(
                     lambda request=request, exception=exception: request.add_exception(
